@@ -244,7 +244,16 @@ class MetadorNode(wrapt.ObjectProxy):
             # allow child nodes of local-only nodes to go up to the marked parent
             # (or it is None, if this is the local root)
             if lp := self._self_local_parent:
-                return lp
+                if all(lp.acl[k] for k, v in self.acl.items() if v):
+                    return lp
+                # this node was restricted further than its (stored) local parent
+                # -> pass on all flags (restrictions must not be lost by going up)
+                return MetadorGroup(
+                    self._self_container,
+                    lp.__wrapped__,
+                    local_parent=lp._self_local_parent,
+                    **{k.name: True for k in NodeAcl if self.acl[k] or lp.acl[k]},
+                )
             else:
                 # raise exception (illegal non-local access)
                 self._guard_acl(NodeAcl.local_only, "parent")
